@@ -33,22 +33,22 @@ add("C01", EXPL,
     "Every interleaving of the two endpoints' API calls combined with every pattern of <= D short reads/writes, EAGAINs, "
     "write stalls, trickles and connect/accept delays below XCM (and below OpenSSL) is executed on the real library for "
     "each closed scenario (6 transports, 3 application styles, blocking and non-blocking); the chan reference model is "
-    "compared after every receive and at the end. quick D=3 tcp-class / D=2 TLS-class, thorough D=4-5 / D=3.",
+    "compared after every receive and at the end; also scenarios in which one send(2) is answered ENOBUFS/ENOMEM with the connection unaffected (the application flushes, re-offers, flushes) and in which the receiver writes into a connection its peer has closed before reading it out (completeness at end-of-stream). quick D=3 tcp-class / D=2 TLS-class, thorough one deeper.",
     "Bounded: more than D deviations, longer scripts, other lengths than the boundary set are not excluded. TCP is "
     "emulated over AF_UNIX by envshim (trusted, see DESIGN 1.2/1.6). OpenSSL and libc trusted. Data independence of "
     "the framing code assumed for payload bytes.", "DESIGN.md 2/C01")
 add("C02", EXPL,
     "Same exploration on btcp and btls with a byte-exact stream model (accepted ranges vs received bytes at every step), "
     "send cuts, receive capacities {2,3,64,65536}, a 40000-byte write crossing TLS records, and the four retry policies "
-    "after a refused send (same, longer, different, shorter data). quick D=3 btcp / D=2 btls, thorough D=5 / D=3.",
-    "Bounded as C01. Known findings (BTLS keeps refused bytes inside OpenSSL) are listed in known_findings.json.",
+    "after a refused send (same, longer, different, shorter data), and the receiver writing into a connection its peer has closed before reading it to end-of-stream. quick D=3 btcp / D=2 btls, thorough D=4 / D=3.",
+    "Bounded as C01. Known findings (BTLS keeps refused bytes inside OpenSSL; BTLS reports end-of-stream ahead of arrived bytes after its own write failed) are listed in known_findings.json.",
     "DESIGN.md 2/C02")
 add("C03", EXPL,
     "A 'failing sender' is explored on every transport, non-blocking and blocking: sizes {0,1,65535,65536,2^20}, EAGAIN from the lower "
     "layer at every write, EINTR (signal) at every blocking wait inside xcm_send, re-send or move-on policies, byte-stream retry "
     "policies; every schedule/deviation pattern within D. Oracle: a message whose send returned -1 is never received, a refused call "
     "(EAGAIN/EMSGSIZE/EINVAL/EINTR) leaves all counters unchanged and the connection usable, every accepted message is received "
-    "exactly once. quick D=3 tcp-class / D=2 TLS-class, thorough D=4 / D=3.",
+    "exactly once; includes a send(2) answered ENOBUFS/ENOMEM with the connection unaffected. quick D=2-3 tcp-class / D=2 TLS-class, thorough one deeper.",
     "'As if the call had not been made' is read on counters and on the multiset finally delivered. Bounded as C01.",
     "DESIGN.md 2/C03")
 add("C05", EXPL,
@@ -56,7 +56,7 @@ add("C05", EXPL,
     "sleeps, connect/accept/send/recv on a descriptor without O_NONBLOCK) issued while an API call on a non-blocking socket is in "
     "progress. It watches (a) the complete product transport x connection phase (resolving, connecting, handshaking, ready, "
     "back-pressured, closed, failed, server, every naming variant of both ends against late/failing/silent resolvers) x every API "
-    "operation and attribute access (h_nb), and (b) every execution of the explored two-endpoint traffic scenarios.",
+    "operation and attribute access (h_nb), credential files touched by another process at every fopen() of a non-blocking connect/accept, (b) every execution of the explored two-endpoint traffic scenarios, and (c) control sessions served from inside the application's calls.",
     "A call counts as sleeping if it issues a primitive that MAY sleep, whatever its outcome. Resolver = stub of the c-ares entry points.",
     "DESIGN.md 2/C05")
 add("C04", EXPL,
@@ -100,7 +100,7 @@ add("C11", EXPL,
     "accepted sockets of tcp, tls, btcp, btls and utls; below each history every schedule and I/O-deviation pattern within D. Oracle: "
     "accepted value == xcm_attr_get == option in force (shim's setsockopt table) on the descriptor that carries the connection; "
     "creation-only attributes never change after creation. Plus complete products for xcm.service x transport x role, xcm.blocking vs "
-    "xcm_set_blocking, xcm.local_addr vs bind()/getsockname()/peer's view, and server->accepted inheritance with/without override.",
+    "xcm_set_blocking (including xcm.blocking in the xcm_accept_a map and a switch to blocking that fails), values the kernel refuses although the library admits them, xcm.local_addr vs bind()/getsockname()/peer's view, and server->accepted inheritance with/without override.",
     "'In force' ends at the setsockopt() the kernel was given (emulated TCP). A creation-only attribute may answer EACCES or EINVAL or "
     "accept a no-op; its value must not change. Value sets are {non-default, default, kernel maximum}.", "DESIGN.md 2/C11 and 7a")
 add("C15",
@@ -117,7 +117,7 @@ add("C15",
 add("C16", EXPL,
     "The readiness oracle (idle+flushed pair with condition 0 / RECEIVABLE-after-EAGAIN not readable; server with nothing "
     "pending not readable; already-met conditions readable at once; xcm_fd constant and POLLIN-only, sampled after every call) "
-    "is evaluated at the final quiescent state of every execution inside the bound, on all 8 transports.",
+    "is evaluated at the final quiescent state of every execution inside the bound and at every wait (bytes queued while RECEIVABLE is awaited => readable), on all 8 transports; with control sessions open (h_ctl); and across fork(): a child that only cleans up must not alter the epoll instance behind the owner's xcm_fd (h_life fork scenarios).",
     "Only the situations the property names are judged; histories are those with <= D deviations of the listed scenarios.",
     "DESIGN.md 2/C16")
 add("C17", EXPL,
